@@ -32,7 +32,8 @@ GENERATED = {'Gen/TypeOrder.v': type_order.translate}
 # ------------------------------------------------------------------------------------------------
 # value trees (exactly the wire format of Model/Compare.v)
 #   (0) MISSING (1) None (2 b) (3 z) (4 m e) (5 cps) (6 sym (v..)) (7 (v..)) (8 sym ((key v)..)) (9 cps ((key v)..) uid);  key: (0 cps) | (1 z)
-#   uid 0 = the class of that __qualname__ in CLASS_FIELDS; uid 1 = a second, different class with the same __qualname__ (only 'A' has one)
+#   uid: position of the class among the classes of that __qualname__ ordered by (module, id(class)) -- 0 for all but 'A', which has
+#   three classes: the one of CLASS_FIELDS (module 'builtins') and two more, both in module 'c06_twin' (so the id tie-break is used too)
 def S(s): return [ord(c) for c in s]
 def US(cps): return ''.join(chr(c) for c in cps)
 MISSING, NONE = [0], [1]
@@ -50,11 +51,12 @@ def key_py(k): return US(k[1]) if k[0] == 0 else k[1]
 CLASS_FIELDS = {'A': ['x', 'y'], 'A1': ['x', 'y'], 'A2': ['x', 'y', 'z'], 'Bb': ['x', 'y'], 'Zq': ['q', 'p'], 'Nc': ['p']}
 OPT_IN = {'A', 'A1', 'A2', 'Bb', 'Zq'}
 _CLS = {}
+_UID = {}
 def classes():
   """pg.Object classes used by the generator: a base class, a subclass without and one with extra fields,
   an unrelated class with the same fields, a class whose fields are declared in non-alphabetical order, and a
   class that does not opt into symbolic comparison."""
-  if len(_CLS) > 1: return _CLS
+  if len(_CLS) > 2: return _CLS
   import pyglove as pg
   ns = {}
   src = '''
@@ -79,9 +81,14 @@ class Nc(pg.Object):
   exec(compile(src, 'c06_classes', 'exec'), ns)
   import types
   mod = types.ModuleType('c06_twin'); sys.modules['c06_twin'] = mod; ns2 = mod.__dict__
-  exec(compile('import pyglove as pg\nclass A(pg.Object):\n  x: pg.typing.Any()\n  y: pg.typing.Any()\n', 'c06_twin', 'exec'), ns2)
-  assert ns2['A'] is not ns['A'] and ns2['A'].__qualname__ == 'A'
-  _CLS['A#twin'] = ns2['A']
+  twins = []
+  for _ in range(2):
+    exec(compile('import pyglove as pg\nclass A(pg.Object):\n  x: pg.typing.Any()\n  y: pg.typing.Any()\n', 'c06_twin', 'exec'), ns2)
+    twins.append(ns2['A'])
+  same_name = sorted([ns['A']] + twins, key=lambda c: (c.__module__, id(c)))
+  assert same_name[0] is ns['A'] and len({id(c) for c in same_name}) == 3 and all(c.__qualname__ == 'A' for c in same_name)
+  _CLS['A#1'], _CLS['A#2'] = same_name[1], same_name[2]
+  _UID.update({id(c): i for i, c in enumerate(same_name)})
   for n in CLASS_FIELDS:
     c = ns[n]
     assert c.__qualname__ == n and [str(k) for k in c.__schema__.keys()] == CLASS_FIELDS[n], (n, c.__qualname__, list(c.__schema__.keys()))
@@ -135,7 +142,7 @@ def build(v):
     d = {key_py(k): build(x) for k, x in v[2]}
     return pg.Dict(d) if v[1] else d
   if t == 9:
-    cls = classes()[US(v[1]) + ('#twin' if v[3] else '')]
+    cls = classes()[US(v[1]) + ('#%d' % v[3] if v[3] else '')]
     kw = {key_py(k): build(x) for k, x in v[2] if x[0] != 0}
     return cls.partial(**kw) if len(kw) < len(v[2]) else cls(**kw)
   raise ValueError(v)
@@ -161,7 +168,7 @@ def readback(o):
     items = o.sym_items() if isinstance(o, pg.Dict) else o.items()
     return [8, 1 if isinstance(o, pg.Dict) else 0, [[mk_key(k), readback(x)] for k, x in items]]
   if isinstance(o, pg.Object):
-    return [9, S(type(o).__qualname__), [[mk_key(k), readback(x)] for k, x in o.sym_items()], 1 if type(o) is classes()['A#twin'] else 0]
+    return [9, S(type(o).__qualname__), [[mk_key(k), readback(x)] for k, x in o.sym_items()], _UID.get(id(type(o)), 0)]
   raise ValueError(type(o))
 
 def norm_float(v):
@@ -297,7 +304,7 @@ class Gen:
         i = r.randrange(len(ents)); ents[i][1] = self.mutant(ents[i][1], True)
         return [9, v[1], ents, v[3]]
       same = [n for n in CLASS_FIELDS if n != name and CLASS_FIELDS[n] == CLASS_FIELDS[name]]
-      if name == 'A' and k < .58: return [9, v[1], ents, 1 - v[3]]      # same __qualname__, different class
+      if name == 'A' and k < .58: return [9, v[1], ents, r.choice([u for u in (0, 1, 2) if u != v[3]])]      # same __qualname__, different class
       if same and k < .85: return [9, S(r.choice(same)), ents, 0]
       if name in ('A', 'A1'): return [9, S('A2'), ents + [[mk_key('z'), self.value(1, True)]], 0]
       return Ov(name, [(key_py(kk), self.value(1, True)) for kk, _ in ents])
@@ -309,7 +316,6 @@ def in_domain(v, fam, twins_ok=False):
   if t == 6: return all(in_domain(x, fam, twins_ok) for x in v[2])
   if t == 7: return fam is not None and all((is_num(x) if fam == 'num' else x[0] == 5) for x in v[1])
   if t in (8, 9):
-    if t == 9 and v[3] != 0 and not twins_ok: return False
     return len({json.dumps(k) for k, _ in v[2]}) == len(v[2]) and all(in_domain(x, fam, twins_ok) for _, x in v[2])
   return True
 
@@ -385,7 +391,7 @@ def pool():
        Ov('A2', [('x', Iv(1)), ('y', Iv(2)), ('z', Iv(3))]), Ov('Bb', [('x', Iv(1)), ('y', Iv(2))]), Ov('Zq', [('q', Iv(1)), ('p', Iv(2))]),
        Ov('Zq', [('q', Iv(2)), ('p', Iv(1))]), Ov('Nc', [('p', Iv(1))]), Ov('A', [('x', Iv(1))]), Ov('A', [('x', NONE), ('y', NONE)]),
        Ov('A', [('x', Dv(1, [a1, b2])), ('y', Lv(1, [Iv(1)]))]), Ov('A', [('x', Dv(1, [b2, a1])), ('y', Lv(1, [B(True)]))]),
-       Ov('A', [('x', Iv(1)), ('y', Iv(2))], uid=1)]
+       Ov('A', [('x', Iv(1)), ('y', Iv(2))], uid=1), Ov('A', [('x', Iv(0)), ('y', Iv(2))], uid=2)]
   return [canon(v) for v in P]
 
 # ------------------------------------------------------------------------------------------------
@@ -656,7 +662,7 @@ def make_cases(ctx):
     vals = [v for v in vals if in_domain(v, fam)]
     while len(vals) < rng.randint(3, 9):
       w = rel(g, rng.choice(vals))[0] if vals and rng.random() < .5 else fresh(g, rng.choice([0, 1, 2, 3]))
-      if in_domain(w, fam): vals.append(w)     # (a list holding two classes of one __qualname__ makes sorted() raise: pair cases cover that)
+      if in_domain(w, fam): vals.append(w)
     rng.shuffle(vals)
     cases.append(dict(kind='sort', vals=vals, fam=fam, dom=all(in_domain(v, fam) for v in vals), src='sort'))
   for v in [MISSING, NONE, B(True), Iv(3), F(3, 1), Sv('s'), Lv(0, []), Lv(1, []), Tv([]), Dv(0, []), Dv(1, [])] + \
@@ -745,30 +751,10 @@ def oracle(case):
                        dict(kind='sort', vals=cur, fam=case['fam'])))
   return hits
 
-def has_twin(v):
-  if v[0] == 9: return v[3] != 0 or any(has_twin(x) for _, x in v[2])
-  if v[0] == 6: return any(has_twin(x) for x in v[2])
-  if v[0] == 8: return any(has_twin(x) for _, x in v[2])
-  return False
-
-def twin_quirk_present(ctx):
-  """Replays the witness of the open finding (two classes, one __qualname__) on the implementation.  The model
-  (PObj uid, Err ERecursion) describes the unrepaired behaviour; once the witness no longer fails, pairs holding
-  both classes are left out of the model/implementation comparison (the laws are still checked on them)."""
-  for f in ctx.open_findings():
-    if 'same-qualname-different-class' in f['signature']:
-      w = f['witness']
-      return any('same-qualname-different-class' in sig for sig, _, _ in oracle(dict(kind='pair', vals=w['vals'], fam=w.get('fam', 'num'), noself=True)))
-  import pyglove as pg
-  a, b = build(Ov('A', [('x', Iv(1)), ('y', Iv(2))])), build(Ov('A', [('x', Iv(1)), ('y', Iv(2))], uid=1))
-  return _try(lambda: pg.lt(a, b)) == ('raise', 'RecursionError')
-
 def run(ctx):
   info = ctx.regen('Gen/TypeOrder.v', type_order.translate)
   ctx.build()
   classes()
-  twin_quirk = twin_quirk_present(ctx)
-  ctx.extra['quirks'] = dict(same_qualname_lt_recursion=twin_quirk)
   cases = make_cases(ctx)
   # de-duplicate
   seen, uniq = set(), []
@@ -785,8 +771,6 @@ def run(ctx):
       if norm_float(readback(build(v))) != norm_float(v):
         bad_build += 1
         ctx.log('GENERATOR: tree not realised exactly: %s -> %s' % (trlib.to_line(v), trlib.to_line(readback(build(v)))))
-    if not twin_quirk and any(has_twin(v) for v in c['vals']):
-      continue        # behaviour after a repair of the open finding is not modelled; the oracle below still runs on the case
     for w, f in expand(c):
       wire.append(w); impl.append(f()); owner.append(ci)
   if bad_build:
